@@ -418,19 +418,7 @@ def rules(rep, m):
     r8 = rep.rule("R-C04-8", "withdrawing wake-ups that are still in flight looks at every pending event: the scan in "
                   "cmb_event_pattern_cancel (used by every unwinding path) visits exactly the slots 1 .. heap_count (shared "
                   "with R-C02-9) - an event in a slot that is never looked at would resume the process out of a later wait", floor=1)
-    from . import siftrules, c02
-    for f_, lp_, H_, bad_ in c02.heap_loops(m):
-        if f_.name != "cmb_event_pattern_cancel":
-            continue
-        r8.instance("%s: loop over the slots of %s->heap calls %s" % (f_.name, H_, sorted(set(bad_)) or "nothing that restructures it"))
-        if bad_:
-            rep.finding(r8, f_.name, "scan:restructures-heap", "the scan for pending wake-ups calls %s inside the loop over the event "
-                        "queue's slots: a removal refills the slot with the last entry, which can sift up into the part already "
-                        "scanned, so a matching wake-up is never looked at, survives the unwinding and resumes the process out "
-                        "of a later wait" % sorted(set(bad_)), where=m.rel(loc(lp_)))
-            r8.fail()
-        else:
-            r8.ok()
+    from . import siftrules
     siftrules.check_scans(rep, r8, m, only={"cmb_event_pattern_cancel"})
 
 
